@@ -28,6 +28,7 @@ import (
 	ocispec "github.com/opencontainers/image-spec/specs-go/v1"
 	"oras.land/oras-go/v2"
 	"oras.land/oras-go/v2/content/memory"
+	"oras.land/oras-go/v2/content/oci"
 )
 
 func init() {
@@ -55,6 +56,7 @@ type EPObs struct {
 	JudgeOutcome   bool   `json:"judgeOutcome"`
 	Runaway        bool   `json:"runaway"`
 	MetaPanic      bool   `json:"metaPanic"`
+	Constructed    bool   `json:"constructed"`
 	Note           string `json:"-"`
 }
 
@@ -77,6 +79,16 @@ func epVerifier(in EPIn, withPluginMgr bool) (interface {
 	st.put(truststore.TypeCA, "s1", ch.Root())
 	sv, stores, ids := epStatement(in.Level)
 	opts := verifier.VerifierOptions{RevocationTimestampingValidator: ctxValidator{&mockRevocation{}}}
+	bad := trustpolicy.SignatureVerification{VerificationLevel: ""} // a statement without level: invalid
+	if strings.HasPrefix(in.Construct, "both-") {
+		opts.OCITrustPolicy = &trustpolicy.OCIDocument{Version: "1.0", TrustPolicies: []trustpolicy.OCITrustPolicy{{Name: "p", SignatureVerification: sv, TrustStores: stores, TrustedIdentities: ids, RegistryScopes: []string{"*"}}}}
+		opts.BlobTrustPolicy = &trustpolicy.BlobDocument{Version: "1.0", TrustPolicies: []trustpolicy.BlobTrustPolicy{{Name: "bp", SignatureVerification: sv, TrustStores: stores, TrustedIdentities: ids}}}
+		if in.Construct == "both-badBlob" {
+			opts.BlobTrustPolicy.TrustPolicies[0].SignatureVerification = bad
+		} else {
+			opts.OCITrustPolicy.TrustPolicies[0].SignatureVerification = bad
+		}
+	}
 	if in.Construct == "oci" || in.Construct == "both" {
 		opts.OCITrustPolicy = &trustpolicy.OCIDocument{Version: "1.0", TrustPolicies: []trustpolicy.OCITrustPolicy{{Name: "p", SignatureVerification: sv, TrustStores: stores, TrustedIdentities: ids, RegistryScopes: []string{"*"}}}}
 	}
@@ -140,6 +152,11 @@ func runEntryPoints() int {
 		must(json.Unmarshal(c.In, &in))
 		format := []string{"jws", "cose"}[mix(*flagSeed, c.ID, "fmt")%2]
 		v, err := epVerifier(in, in.Plugin == "installed")
+		if err != nil && strings.HasPrefix(in.Construct, "both-") {
+			// refused at construction, as it must be
+			b := EPObs{Outcome: "nil", JudgeOutcome: true, Note: err.Error()}
+			return []traceLine{{ID: c.ID, Variant: format, In: c.In, Obs: b, Note: b.Note}}
+		}
 		must(err)
 		sig := epSignature(in, format, c.ID)
 		ctx := context.Background()
@@ -149,7 +166,7 @@ func runEntryPoints() int {
 			}
 			return in.Construct != "oci"
 		}()
-		obs := EPObs{Outcome: "nil", JudgeOutcome: true, AfterSelection: hasDoc && (in.Entry == "vVerify" || in.Entry == "vVerifyBlob")}
+		obs := EPObs{Outcome: "nil", JudgeOutcome: true, Constructed: true, AfterSelection: hasDoc && !strings.HasPrefix(in.Construct, "both-") && (in.Entry == "vVerify" || in.Entry == "vVerifyBlob")}
 		var outcome *notation.VerificationOutcome
 		var cerr error
 		desc := ocispec.Descriptor{MediaType: mtA, Digest: digestOf(digest.SHA256, blobA), Size: int64(len(blobA))}
@@ -320,7 +337,7 @@ func runFuzzBytes() int {
 			out = append(out, traceLine{ID: c.ID, Variant: variant, In: b, Obs: obs, Note: obs.Note})
 		}
 		for k := 0; k < in.N; k++ {
-			obs := EPObs{Outcome: "nil"}
+			obs := EPObs{Outcome: "nil", Constructed: true}
 			switch in.Target {
 			case "envelope":
 				format := []string{"jws", "cose"}[r.Intn(2)]
@@ -448,6 +465,18 @@ func runFuzzBytes() int {
 						if perr == nil {
 							_, _, _ = repo.FetchSignatureBlob(ctx, hd)
 						}
+						// a signature manifest declaring an oversized envelope (refused by the cap before any content is used)
+						// (an on-disk layout fetches blobs by digest, whatever size the descriptor declares)
+						if ldir, lerr := os.MkdirTemp(*flagScratch, "hostile"); lerr == nil {
+							if lst, oerr := oci.New(ldir); oerr == nil {
+								if lart, aerr := oras.PackManifest(ctx, lst, oras.PackManifestVersion1_1, "application/vnd.verif.artifact", oras.PackManifestOptions{}); aerr == nil {
+									if hm, herr := hostileSizeManifest(ctx, lst, lart, []int64{1 << 50, 300 << 20, 33 << 20}[k%3]); herr == nil {
+										_, _, _ = registry.NewRepository(lst).FetchSignatureBlob(ctx, hm)
+									}
+								}
+							}
+							os.RemoveAll(ldir)
+						}
 						// a descriptor that lies about the size
 						lie := man
 						lie.Size = int64(r.Intn(1 << 30))
@@ -463,4 +492,21 @@ func runFuzzBytes() int {
 		return out
 	}
 	return runParallel(cases, fn, *flagOut, *flagWorkers)
+}
+
+func hostileSizeManifest(ctx context.Context, store oras.Target, subject ocispec.Descriptor, declared int64) (ocispec.Descriptor, error) {
+	layer, err := oras.PushBytes(ctx, store, mtJWS, []byte(fmt.Sprintf("tiny envelope %d", declared)))
+	if err != nil {
+		return ocispec.Descriptor{}, err
+	}
+	layer.Size = declared
+	cfg := ocispec.Descriptor{MediaType: artifactTypeNotation, Digest: ocispec.DescriptorEmptyJSON.Digest, Size: ocispec.DescriptorEmptyJSON.Size}
+	if ok, _ := store.Exists(ctx, cfg); !ok {
+		if err := store.Push(ctx, cfg, bytes.NewReader([]byte("{}"))); err != nil {
+			return ocispec.Descriptor{}, err
+		}
+	}
+	m := ocispec.Manifest{MediaType: ocispec.MediaTypeImageManifest, Config: cfg, Layers: []ocispec.Descriptor{layer}, Subject: &subject}
+	m.SchemaVersion = 2
+	return pushJSON(ctx, store, ocispec.MediaTypeImageManifest, m, 0)
 }
